@@ -185,6 +185,41 @@ impl Default for Lv {
     }
 }
 
+/// Keep with machine-word fields (16 bytes, alignment 8, plain data): a word-wise zero fill of "word-aligned plain
+/// data" would also wipe the id, which this type's Zeroize keeps
+#[derive(Clone, Copy, PartialEq, Debug)]
+struct K8 {
+    id: u64,
+    secret: u64,
+}
+impl Zeroize for K8 {
+    fn zeroize(&mut self) {
+        self.secret.zeroize();
+    }
+}
+impl ConstDefault for K8 {
+    const DEFAULT: Self = K8 { id: 3, secret: 5 };
+}
+impl Default for K8 {
+    fn default() -> Self {
+        K8 { id: 3, secret: 5 }
+    }
+}
+
+/// `DefaultIsZeroes` with a default that is NOT all-zero bytes: zeroize (the zeroize crate's blanket impl) writes
+/// `Default::default()`, a byte-wise wipe of the storage does not
+#[derive(Clone, Copy, PartialEq, Debug)]
+struct Dz(u8);
+impl Default for Dz {
+    fn default() -> Self {
+        Dz(50)
+    }
+}
+impl zeroize::DefaultIsZeroes for Dz {}
+impl ConstDefault for Dz {
+    const DEFAULT: Self = Dz(50);
+}
+
 /// one byte that COUNTS its wipes: zeroize is not idempotent here (x -> x + 1), so an element that is
 /// reached twice differs from one that is reached once
 #[derive(Clone, PartialEq, Debug)]
@@ -331,6 +366,24 @@ impl Elem for Inv {
         self.0 as i128
     }
 }
+impl Elem for K8 {
+    const BITS: u32 = 32;
+    fn dec(c: i128) -> Self {
+        K8 { id: c as u16 as u64, secret: (c >> 16) as u16 as u64 }
+    }
+    fn enc(&self) -> i128 {
+        self.id as i128 + 65536 * self.secret as i128
+    }
+}
+impl Elem for Dz {
+    const BITS: u32 = 8;
+    fn dec(c: i128) -> Self {
+        Dz(c as u8)
+    }
+    fn enc(&self) -> i128 {
+        self.0 as i128
+    }
+}
 impl Elem for Lv {
     const BITS: u32 = 8;
     fn dec(c: i128) -> Self {
@@ -381,7 +434,7 @@ impl Elem for GenericArray<W, U3> {
     }
 }
 
-const NTY: i128 = 14;
+const NTY: i128 = 16;
 fn bits_of(ty: i128) -> u32 {
     match ty {
         0 => <u8 as Elem>::BITS,
@@ -396,6 +449,8 @@ fn bits_of(ty: i128) -> u32 {
         9 => <Inv as Elem>::BITS,
         11 => <Cnt as Elem>::BITS,
         13 => <Lv as Elem>::BITS,
+        14 => <K8 as Elem>::BITS,
+        15 => <Dz as Elem>::BITS,
         _ => <Page as Elem>::BITS,
     }
 }
@@ -585,13 +640,20 @@ fn run_ty_short<T: Elem>(digits: &[i128], op: i128, prior: &[i128]) -> Option<Ve
 
 /// op 5: `arr.zeroize()` in method-call syntax on a CONCRETE array type, written out per (element, length): method
 /// resolution sees the concrete element type here (inherent methods and more specific impls are candidates)
-fn run_concrete(ty: i128, n: usize, prior: &[i128]) -> Option<Vec<i128>> {
+fn run_concrete(ty: i128, n: usize, prior: &[i128], boxed: bool) -> Option<Vec<i128>> {
     macro_rules! conc {
         ($T:ty, $N:ty) => {{
             let mut arr: GenericArray<$T, $N> = GenericArray::from_iter(prior.iter().map(|c| <$T as Elem>::dec(*c)));
-            arr.zeroize();
             let mut out = vec![<$N as Unsigned>::USIZE as i128];
-            out.extend(arr.iter().map(|e| e.enc()));
+            if boxed {
+                // op 6: the array lives in a Box and `zeroize()` is called on the BOX
+                let mut b: Box<GenericArray<$T, $N>> = Box::new(arr);
+                b.zeroize();
+                out.extend(b.iter().map(|e| e.enc()));
+            } else {
+                arr.zeroize();
+                out.extend(arr.iter().map(|e| e.enc()));
+            }
             Some(out)
         }};
     }
@@ -615,18 +677,20 @@ fn run_concrete(ty: i128, n: usize, prior: &[i128]) -> Option<Vec<i128>> {
         9 => by_len!(Inv),
         11 => by_len!(Cnt),
         13 => by_len!(Lv),
+        14 => by_len!(K8),
+        15 => by_len!(Dz),
         _ => None,
     }
 }
-const CONCRETE_TYS: [i128; 6] = [0, 1, 4, 9, 11, 13];
+const CONCRETE_TYS: [i128; 8] = [0, 1, 4, 9, 11, 13, 14, 15];
 const CONCRETE_LENS: [usize; 6] = [0, 1, 2, 3, 8, 33];
 
 fn run_case(case: &[i128]) -> Vec<i128> {
     let (op, ty, nd) = (case[0], case[1], case[2] as usize);
     let digits = &case[3..3 + nd];
     let prior = &case[3 + nd..];
-    if op == 5 {
-        return run_concrete(ty, value(digits), prior).expect("concrete (type, length) not written out");
+    if op == 5 || op == 6 {
+        return run_concrete(ty, value(digits), prior, op == 6).expect("concrete (type, length) not written out");
     }
     if op == 4 {
         let (n, codes, ok) = const_item(ty, digits).expect("no const item of that type and length");
@@ -651,6 +715,8 @@ fn run_case(case: &[i128]) -> Vec<i128> {
         10 => run_ty_short::<Page>(digits, op, prior),
         11 => run_ty::<Cnt>(digits, op, prior),
         13 => run_ty::<Lv>(digits, op, prior),
+        14 => run_ty::<K8>(digits, op, prior),
+        15 => run_ty::<Dz>(digits, op, prior),
         _ => panic!("bad element type {}", ty),
     };
     r.expect("length type not monomorphised")
@@ -728,10 +794,12 @@ fn main() {
             }
             if CONCRETE_TYS.contains(&ty) && CONCRETE_LENS.contains(&n) && ds.last() != Some(&0) {
                 for prior in &contents {
-                    dist("op5");
-                    let mut c = head(5, ty, ds);
-                    c.extend(prior);
-                    do_case(c);
+                    for op in [5i128, 6] {
+                        dist(&format!("op{}", op));
+                        let mut c = head(op, ty, ds);
+                        c.extend(prior);
+                        do_case(c);
+                    }
                 }
             }
             for prior in contents {
